@@ -31,6 +31,24 @@ def run(ctx):
     prog = ctx.prog
     ctx.rule("R1", "routing table: Post* -> StateReads::post, others -> pre; *Extern -> external reader, others -> reader given the solved predicate's contract")
     ctx.rule("R2", "request dataflow: key/count = components of pop_key_range_args, unmodified; external address = ContentAddress(u8_32_from_word_4(pop4)); state error wrapped by OpError::StateRead only")
+
+    # operand readers fail only when a pop or the usize conversion fails: no further (spurious) rejection of a request
+    for nm, want in [("pop_memory_address", [("<propagate error>", ["err(essential_vm::stack::Stack::pop(stack))"]),
+                                             ("<propagate error>", ["ok(essential_vm::stack::Stack::pop(stack))", "err(int::try_from(essential_vm::stack::Stack::pop(stack)?))"]),
+                                             ("Result::Ok{int::try_from(essential_vm::stack::Stack::pop(stack)?)?}", ["ok(essential_vm::stack::Stack::pop(stack))", "ok(int::try_from(essential_vm::stack::Stack::pop(stack)?))"])])]:
+        f_ = prog.fn("essential_vm::state_read::" + nm)
+        if ctx.anchor("R2", "fn " + nm, f_):
+            ctx.saw(f_)
+            rows = sorted((v, at) for _, v, at in M.return_table(prog, f_))
+            ctx.ob("R2", nm + ":fails-only-when-the-pop-or-the-conversion-fails", rows == sorted(want), "%s:%d" % (f_.file, f_.line), "returns %s" % [(v[:60], [a[:50] for a in at][-1:]) for v, at in rows], f_)
+    f_ = prog.fn("essential_vm::state_read::pop_key_range_args")
+    if f_ is not None:
+        rows = [(v, at) for _, v, at in M.return_table(prog, f_)]
+        errs = [at[-1] for v, at in rows if v == "<propagate error>"]
+        oks = [v for v, at in rows if v.startswith("Result::Ok{")]
+        ok = len(rows) == 4 and len(oks) == 1 and sorted(re.sub(r"\(.*", "", e) for e in errs) == ["err", "err", "err"] and \
+            any(e.startswith("err(essential_vm::stack::Stack::pop(") for e in errs) and any(e.startswith("err(int::try_from(") for e in errs) and any(e.startswith("err(essential_vm::stack::Stack::pop_len_words(") for e in errs)
+        ctx.ob("R2", "pop_key_range_args:fails-only-when-a-pop-or-the-conversion-fails", ok, "%s:%d" % (f_.file, f_.line), "failing returns under %s" % [e[:60] for e in errs], f_)
     ctx.rule("R3", "frame: state_read never grows memory (only store_range) and only pops the stack")
     ctx.rule("R4", "layout skeleton of write_values_to_memory")
     routing.check_routing(ctx, "R1")
